@@ -148,7 +148,8 @@ class Lab:
         self.exe = exe or build.snapraid("plain")
         self.seed = seed
         self.bracket = bracket
-        self.root = root or os.path.join(scratch_base(), "vp-%d-%d" % (os.getpid(), next(_counter)))
+        # fixed-width root names: a state saved under one root can be re-based to another by a same-length replace
+        self.root = root or os.path.join(scratch_base(), "vp-%07d-%03d" % (os.getpid(), next(_counter)))
         self.time = NOW
         self.versions = {}     # (disk, path, size, mtime_ns) -> list of bytes ever written with that identity
         self.nrun = 0
@@ -368,7 +369,7 @@ class Lab:
                         with open(fp, "rb") as f:
                             ents[rel] = ("f", f.read(), st.st_mtime_ns, stat.S_IMODE(st.st_mode))
         return dict(ents=ents, versions={k: list(v) for k, v in self.versions.items()}, time=self.time,
-                    t=getattr(self, "_t", 0), cfg=self.cfg)
+                    t=getattr(self, "_t", 0), cfg=self.cfg, root=self.root)
 
     def restore(self, saved):
         for n in os.listdir(self.root):
@@ -380,6 +381,9 @@ class Lab:
             else:
                 os.unlink(fp)
         ents = saved["ents"]
+        old_root = saved.get("root", self.root)
+        if old_root != self.root:
+            ents = self._rebase(ents, old_root, saved["cfg"])
         later = []
         for rel in sorted(ents):
             e = ents[rel]
@@ -402,6 +406,24 @@ class Lab:
         self.time = saved["time"]
         self._t = saved["t"]
         self.cfg = saved["cfg"]
+
+    def _rebase(self, ents, old_root, cfg):
+        """content files of format 3 record the absolute paths of the parity splits: when a saved state is
+        materialised under another (same-length) root, those strings are replaced and the CRC trailer recomputed"""
+        from . import ref
+        assert len(old_root) == len(self.root), (old_root, self.root)
+        out = dict(ents)
+        o, n = old_root.encode(), self.root.encode()
+        for cpath in cfg.contents:
+            for rel in (cpath, cpath + ".tmp"):
+                e = out.get(rel)
+                if e is None or e[0] != "f" or o not in e[1] or len(e[1]) < 5:
+                    continue
+                body = e[1][:-4].replace(o, n)
+                crc_ok = ref.crc32c(e[1][:-4]).to_bytes(4, "little") == e[1][-4:]
+                data = body + (ref.crc32c(body).to_bytes(4, "little") if crc_ok else e[1][-4:])
+                out[rel] = ("f", data) + tuple(e[2:])
+        return out
 
     # ------------------------------------------------------------------ running commands
     def base_opts(self, cmd=None):
